@@ -38,8 +38,8 @@ func kwLeanStr(s string) string {
 		case r == '"' || r == '\\':
 			b.WriteByte('\\')
 			b.WriteRune(r)
-		case r < 0x20 || r > 0x7e:
-			fmt.Fprintf(&b, "\\u{%x}", r)
+		case r < 0x20 || r == 0x7f:
+			fmt.Fprintf(&b, "\\x%02x", r)
 		default:
 			b.WriteRune(r)
 		}
